@@ -457,7 +457,11 @@ func (w *World) fireStepFaults() {
 func (w *World) inject(f *Fault) {
 	f.fired = true
 	if f.Site != "" {
-		w.faultsInc("site-triggered")
+		defer func() {
+			if f.fired {
+				w.faultsInc("site-triggered")
+			}
+		}()
 	}
 	switch f.Kind {
 	case "crash":
@@ -493,6 +497,32 @@ func (w *World) inject(f *Fault) {
 				w.net.Stall(c, f.Dir, true)
 				w.faultsInc("stall")
 			}
+		}
+	case "cancel":
+		var c *Call
+		w.mu.Lock()
+		for _, x := range w.calls[1:] {
+			if x.Thread == f.Thread && x.OpIdx == f.OpIdx && !x.IsProbe {
+				c = x
+			}
+		}
+		w.mu.Unlock()
+		if c == nil || c.cancel == nil {
+			// the call does not exist yet: stay armed and strike as soon as it does
+			f.fired = false
+			return
+		}
+		if c.CtxEndSeq == 0 {
+			w.mu.Lock()
+			for _, ca := range w.cancels {
+				if ca.c == c {
+					ca.fired = true
+				}
+			}
+			w.mu.Unlock()
+			w.ctxEnded(c, "cancel")
+			c.cancel()
+			w.faultsInc("cancel")
 		}
 	case "close":
 		m := w.mgrs[f.Mgr]
